@@ -89,6 +89,22 @@ namespace TrRouting
                 spdlog::error("Invalid trip {} in file {}: {} stop times for a path of {} stops, ignoring it", tripUuidStr, cacheFilePath, tripNodeTimesCount, path.nodesRef.size());
                 continue;
               }
+
+              // No connection may arrive before it departs: the calculations rely on time never going backwards
+              bool tripGoesBackInTime = false;
+              for (unsigned long nodeTimeI = 0; nodeTimeI + 1 < tripNodeTimesCount; nodeTimeI++)
+              {
+                if (capnpTrip.getNodeArrivalTimesSeconds()[nodeTimeI + 1] < capnpTrip.getNodeDepartureTimesSeconds()[nodeTimeI])
+                {
+                  tripGoesBackInTime = true;
+                  break;
+                }
+              }
+              if (tripGoesBackInTime)
+              {
+                spdlog::error("Invalid trip {} in file {}: arrives at a stop before leaving the previous one, ignoring it", tripUuidStr, cacheFilePath);
+                continue;
+              }
               
               trips.emplace(tripUuid, Trip(tripUuid,
                                            line.agency,
